@@ -31,7 +31,7 @@ func ExtendedPatternMatcher(pat string, mode pattern.Mode) (func(string) bool, e
 		if !ok {
 			return nil, err
 		}
-		return extNegatedMatcher(pat, negErr.Groups)
+		return extNegatedMatcher(pat, mode, negErr.Groups)
 	}
 	rx := regexp.MustCompile(expr)
 	return rx.MatchString, nil
@@ -39,7 +39,7 @@ func ExtendedPatternMatcher(pat string, mode pattern.Mode) (func(string) bool, e
 
 // extNegatedMatcher handles !(pattern-list) extglob negation.
 // Only a single !(...) group with fixed-string prefix and suffix is supported.
-func extNegatedMatcher(pat string, groups []pattern.NegExtGlobGroup) (func(string) bool, error) {
+func extNegatedMatcher(pat string, mode pattern.Mode, groups []pattern.NegExtGlobGroup) (func(string) bool, error) {
 	if len(groups) != 1 {
 		return nil, fmt.Errorf("multiple extglob !(...) groups are not supported yet")
 	}
@@ -53,22 +53,26 @@ func extNegatedMatcher(pat string, groups []pattern.NegExtGlobGroup) (func(strin
 
 	// Use @(inner) to compile the pattern list, then negate the match.
 	inner := pat[g.Start+len("!(") : g.End-len(")")]
-	expr, err := pattern.Regexp("@("+inner+")", pattern.EntireString|pattern.ExtendedOperators)
+	expr, err := pattern.Regexp("@("+inner+")", pattern.EntireString|pattern.ExtendedOperators|mode&pattern.NoGlobCase)
 	if err != nil {
 		return nil, err
 	}
 	rx := regexp.MustCompile(expr)
+	equal := func(a, b string) bool { return a == b }
+	if mode&pattern.NoGlobCase != 0 {
+		equal = strings.EqualFold
+	}
 
 	return func(name string) bool {
-		if !strings.HasPrefix(name, prefix) {
-			return false
-		}
-		if !strings.HasSuffix(name, suffix) {
-			return false
-		}
 		end := len(name) - len(suffix)
 		if end < len(prefix) {
-			return false // prefix and suffix overlap in name
+			return false // prefix and suffix do not fit or overlap in name
+		}
+		if !equal(name[:len(prefix)], prefix) {
+			return false
+		}
+		if !equal(name[end:], suffix) {
+			return false
 		}
 		middle := name[len(prefix):end]
 
